@@ -728,6 +728,11 @@ func (fc *FnCtx) ret(x *ssa.Return, st *State, g *smt.Term, where string) {
 }
 
 func (fc *FnCtx) checkEnsures(vars map[string]Val, st *State, g *smt.Term, where string) {
+	for _, d := range fc.C.Defines {
+		ec := &evalCtx{fc: fc, vars: vars, cur: st, old: fc.entryView(), atReturn: true}
+		fc.assume(g, ec.boolean(d.E), "definition at construction: "+d.Text)
+		fc.Used["definition at construction in "+fc.Name+": "+d.Text+" (the object is fresh and its fields are never written afterwards: constfield scan)"] = true
+	}
 	for _, e := range fc.C.Ensures {
 		ec := &evalCtx{fc: fc, vars: vars, cur: st, old: fc.entryView(), atReturn: true}
 		goal := ec.boolean(e.E)
